@@ -84,10 +84,22 @@ def run(ctx):
         r = ctx.tlc("C25Design", "C25Design.cfg", timeout=1500, name="design")
         for v in r.violations:
             raise vlib.Infra("oracle self-check failed (spec defect, not a verdict): %s" % v["name"])
+    # 4. the mutable bit set under the LALR and lexer constructions (BitSet.tla): seeded operation sequences with arguments around the word
+    # boundaries replayed on the real container.BitSet, state and result compared after every operation; the design model in the thorough tier
+    if thorough:
+        r = ctx.tlc("BitSet", "BitSetDesign.cfg", timeout=1500, continue_=False, name="bitset-design")
+        for v in r.violations:
+            raise vlib.Infra("design model BitSet.tla violated (%s): a spec defect, not a verdict" % v["name"])
+    bs = ctx.path("bitset.ndjson")
+    ctx.vhrun(["bitset-run", "10000" if thorough else "1500", bs])
+    bsig = lambda c: "bitset:%d:%s" % (c["size"], " ".join("%s(%s)" % (o["op"], o["a"] if o["op"] != "or" else o["other"]) for o in c["ops"]))
+    vlib.validate_cases(ctx, "BitSetTrace", "BitSetTrace.cfg", bs, label="bitset", timeout=3000, sig=bsig, sigv=lambda c, rec, v: v + ":" + bsig(c), rerun=None,
+                        input_keys=["size", "ops"], observed_keys=["obs", "crash"], nontrivial=lambda c: any(o["cap"] > 32 and len(o["bits"]) > 2 for o in c["obs"]))
     ctx.cov["exhaustive"] = True
     ctx.cov["rule"] = ("TLC enumerates all 1024 pairs of finite/co-finite sets over 0..3 and all API-constructible closure systems "
                        "with %s (nodes, max base element); vh records the real results; TLC validates each against Sem / least solution. "
                        "Random: seeded 4-7 node systems. Non-trivial: algebra pairs mixing a finite and a co-finite non-empty set; "
-                       "closure systems with >=2 distinct node kinds and at least one edge (distinct by full system text)." % universes)
+                       "closure systems with >=2 distinct node kinds and at least one edge (distinct by full system text). container.BitSet: seeded sequences of 12 operations "
+                       "(set/clear/get/setAll/clearAll/complement/or/grow/nextZero/cardinality) around the 32-bit word boundaries against BitSet.tla (sampled, not exhaustive)." % universes)
     ctx.assumptions += ["TLC and the Json/IOUtils community modules", "harness builds systems through the public Closure API only (intersection/complement nodes refer to earlier nodes)",
                         "sets are interpreted over a probe universe with one element beyond those mentioned"]
